@@ -78,7 +78,11 @@ def require_stmt(name, ch, use_game_loop, k):
     return ('call', c), site
 
 
-def gen_body(ch, requires, is_package, avoid):
+HARNESS_REQUIRE = ('call', ('chain', ('name', b'require'),
+                            [('call', ('args', [('exp', [('string', b'"zz_only_for_the_test_cart"')])]))]))
+
+
+def gen_body(ch, requires, is_package, avoid, harness=False):
     """Model block of one file: LUAGEN statements + require statements (+ game-loop functions for packages)."""
     cfg = luagen.Cfg(max_depth=2, max_stmts=1 + ch.below(4), budget=20 + ch.below(50), avoid=avoid)
     body, tags = luagen.gen_program(ch, cfg)
@@ -99,6 +103,10 @@ def gen_body(ch, requires, is_package, avoid):
             nm = ch.pick(GAME_LOOP)
             g = luagen._Gen(ch, luagen.Cfg(max_depth=1, max_stmts=2, budget=12, avoid=avoid))
             fn = ('function', [nm], None, g.body(1))
+            if harness:
+                # the library's own test cart code: a require() that only its game loop needs (the file does not exist).
+                # The function is stripped when the library is embedded, and its require() with it.
+                fn[3][2].insert(0, HARNESS_REQUIRE)
             pos = ch.weighted([(60, 'start'), (80, 'middle'), (60, 'end')])
             idx = {'start': 0, 'middle': ch.below(len(body) + 1), 'end': len(body)}[pos]
             body.insert(idx, fn)
@@ -209,7 +217,9 @@ def build_case(seed, avoid=()):
     for who in [None] + names:
         f = File()
         reqs = [(_req_string(who, t, load), ugl[t]) for t in edges[who]]
-        f.model, f.sites, f.loops = gen_body(ch, reqs, who is not None, avoid)
+        harness = (who is not None and not ugl[who] and who not in alias.values() and bytes(seed)[-7] % 3 == 1)
+        f.model, f.sites, f.loops = gen_body(ch, reqs, who is not None, avoid, harness)
+        f.harness = harness and any(p in ('start', 'middle', 'end') for p in f.loops)
         toks, stmts = luagen.render(f.model, ch)
         mode = ch.pick(['free', 'lines', 'lines', 'minimal'])
         f.lay = luagen.layout(toks, ch, mode)
@@ -471,6 +481,8 @@ def part_graphs(ctx):
             labs.append('use_game_loop')
         if case.get('after_failed_build'):
             labs.append('after_failed_build_in_same_process')
+        if any(getattr(f, 'harness', False) for f in case['files'].values()):
+            labs.append('require_inside_stripped_game_loop')
         if any(b'/' in k and k.split(b'/')[0] in order for k in order):
             labs.append('package_named_like_a_directory')
         for al, real in case['alias'].items():
@@ -505,6 +517,10 @@ ERRORS = [
     ('two_options', b'require("ok", {use_game_loop=true, x=1})\n'),
     ('option_not_table', b'require("ok", true)\n'),
     ('missing_in_package', b'require("needs_missing")\n'),
+    # call forms without parentheses: not "a string literal plus the one supported option" in an argument list
+    ('string_call', b'require "ok"\n'),
+    ('long_string_call', b'x=require [[ok]]\n'),
+    ('table_call', b'require{"ok"}\n'),
 ]
 
 
@@ -566,7 +582,7 @@ def vacuity(total, tier):
                 'use_game_loop', 'site_stmt', 'site_local', 'site_in_function', 'load_default', 'load_abs_cli',
                 'load_abs_env', 'load_rel_dotdot', 'no_final_newline', 'error_missing_file', 'error_bad_option_value',
                 'one_file_two_names_different_option', 'after_failed_build_in_same_process',
-                'package_named_like_a_directory'):
+                'package_named_like_a_directory', 'require_inside_stripped_game_loop'):
         if total.classes.get(lab, 0) < 2:
             msgs.append('class %s seen %d times' % (lab, total.classes.get(lab, 0)))
     return msgs
